@@ -90,6 +90,11 @@ def main(run):
         iop = input_op(schema, rng, "VarsOp")
         if iop:
             docs.append((render_document({"operations": [iop], "fragments": []}), ["input-vars"]))
+        # an operation kind whose root the schema lacks must be refused by every rendering alike
+        for kind in ("mutation", "subscription"):
+            if not schema.roots.get(kind):
+                docs.append(("%s NoSuchRoot { __typename }\n" % kind, ["missing-root-operation"]))
+                run.count("missing-root-documents")
         for di, (dtext, feats) in enumerate(docs):
             for oi, opts in enumerate(OPTION_SETS):
                 if run.quick() and oi > 0 and di > 1:
